@@ -241,7 +241,34 @@ def r6_assign_only(chk):
                 chk.bad("R6", f"{fi.qual}:*other=", EXPAND, m["line"], "whole-value overwrite of the existing destination", found=m["src"][:60])
 
 
+def r7_chain_symmetry(chk):
+    from ..tables import ATTR
+    from .c05 import probe_sequence
+    repo = chk.repo
+    chk.rule("R7", "instruction lookup chains are flavour-symmetric: the by-ref chain is the owned chain with Owned<->Ref exchanged; the fallible chain extends the infallible one", floor=8)
+    fa = repo.fn(ATTR, "applicable_attr", impl="MemberAttrs")
+    fp = repo.fn(ATTR, "get_for_kind", impl="ParentChildField")
+    mirror = {"OwnedInto": "RefInto", "FromOwned": "FromRef", "OwnedIntoExisting": "RefIntoExisting"}
+
+    def mir(seq):
+        return [tuple(mirror.get(x, x) if isinstance(x, str) else x for x in p) for p in seq]
+    for ko, kr in mirror.items():
+        for f in (False, True):
+            so, _w, _n = probe_sequence(repo, fa, {"ghost", "field_attr_core"}, ko, f)
+            sr, _w2, _n2 = probe_sequence(repo, fa, {"ghost", "field_attr_core"}, kr, f)
+            chk.expect("R7", f"applicable_attr[{ko}~{kr},fallible={f}]", mir(so) == sr, ATTR, fa.line, "by-ref conversions look instructions up in a different order than owned ones", expected=mir(so), found=sr)
+        po, _w, _n = probe_sequence(repo, fp, set(), ko, False, has_fallible=False)
+        pr, _w2, _n2 = probe_sequence(repo, fp, set(), kr, False, has_fallible=False)
+        chk.expect("R7", f"ParentChildField::get_for_kind[{ko}~{kr}]", mir(po) == pr, ATTR, fp.line, "nested-parent lookup: by-ref falls back differently than owned", expected=mir(po), found=pr)
+    for k in list(mirror) + list(mirror.values()):
+        s0, _w, _n = probe_sequence(repo, fa, {"ghost", "field_attr_core"}, k, False)
+        s1, _w2, _n2 = probe_sequence(repo, fa, {"ghost", "field_attr_core"}, k, True)
+        proj = [p for p in s1 if not (p[0] == "attr" and p[2] is True)]
+        chk.expect("R7", f"applicable_attr[{k}]/fallible-extends", proj == s0, ATTR, fa.line, "the fallible chain must be the infallible chain with the fallible instruction tried first at each step", expected=s0, found=proj)
+
+
 def run(chk):
+    chk.guard("R7", lambda: r7_chain_symmetry(chk))
     chk.guard("R1", lambda: r1_lines(chk))
     chk.guard("R3", lambda: r3_skeletons(chk))
     chk.guard("R4", lambda: r4_ok_wrap(chk))
